@@ -236,6 +236,10 @@ class World:
         for c in self.crates.values():
             for b in c.bodies:
                 self.bodies.setdefault(b.key, []).append(b)
+        self.inlined = {}
+        from . import inline, desugar
+        inline.apply(self)
+        desugar.apply(self)
 
     def body(self, fn, promoted=None, crate=None):
         key = fn if promoted is None else "%s#promoted%d" % (fn, promoted)
@@ -246,11 +250,19 @@ class World:
             return None if not bs else bs[0]
         return bs[0]
 
+    def all_bodies_raw(self):
+        for c in self.crates.values():
+            for b in c.bodies:
+                yield b
+
     def all_bodies(self, crate=None):
+        """all function bodies; helpers that were spliced into every caller (see inline.py) are not enumerated again"""
         for c in self.crates.values():
             if crate is not None and c.name != crate:
                 continue
             for b in c.bodies:
+                if self.inlined.get(b.fn):
+                    continue
                 yield b
 
     def adt(self, path):
